@@ -252,6 +252,11 @@ def _xrule(view, r_bv):
     return dict(month=f('inMonth'), dow=f('onDayOfWeek'), dom=f('onDayOfMonth'), code=f('atTimeCode'), mod=f('atTimeModifier'))
 
 
+# ghost predicate, DEFINED as admitted(year, month, dow, dom) := the ON field is a weekday form that the compiler admits (C18):
+# inside its domain and resolving inside the year.  Callers carry it opaquely; it is unfolded where getTransitionTime is proved.
+ADMITTED = z3.Function('on_field_admitted', z3.BitVecSort(32), z3.BitVecSort(32), z3.BitVecSort(32), z3.BitVecSort(32), z3.BoolSort())
+
+
 def _gtt_terms(c):
     yt, rule = c.args
     r = _xrule(c.old, rule)
@@ -262,7 +267,12 @@ def _gtt_terms(c):
 def _gtt_pre(c):
     yt, r, year, m, dow, dom = _gtt_terms(c)
     # the table satisfies the admission filter of the compiler (C18): a weekday form that resolves inside the year
-    return [_rd.domain(year, m, dow, dom), _rd.no_year_spill(m, dom)]
+    return [ADMITTED(year, m, dow, dom)]
+
+
+def _gtt_entry_defs(c):
+    yt, r, year, m, dow, dom = _gtt_terms(c)
+    return [('def-admitted', ADMITTED(year, m, dow, dom) == z3.And(_rd.domain(year, m, dow, dom), _rd.no_year_spill(m, dom)))]
 
 
 def _gtt_post(c):
@@ -276,8 +286,10 @@ def _gtt_post(c):
             ('suffix-decoded', zx(f_suf, 32) == _enc.dec_suffix(zx(r['mod'])))]
 
 
-contract(EZP + '::getTransitionTime(signed char, ace_time::extended::ZoneRuleBroker)', pure=True, props=['C01'],
-         lang_requires=lambda c: [valid_ptr(c.ex, c.args[1], 9)], requires=_gtt_pre, ensures=_gtt_post)
+_gtt = contract(EZP + '::getTransitionTime(signed char, ace_time::extended::ZoneRuleBroker)', pure=True, props=['C01'],
+                lang_requires=lambda c: [valid_ptr(c.ex, c.args[1], 9)], requires=_gtt_pre, ensures=_gtt_post)
+_gtt.entry_defs = _gtt_entry_defs
+_gtt.private = ('day-is-the-calendar-answer-of-the-ON-field',)      # callers refer to the returned value, not to the calendar formula
 
 
 # ---- createMatch: the era clipped to the viewing interval ---------------------------------------------------------
@@ -327,9 +339,9 @@ def _ctfy_pre(c):
     top = z3.BitVecVal((1 << 64) - 1 - 4096, 64)
     sep = lambda a, na, b, nb: z3.Or(z3.UGE(a, b + nb), z3.UGE(b, a + na))
     # the transition is a RAM object, the era and the rule are table entries: none of them overlap
-    return [era != 0, z3.ULE(era, top), z3.ULE(tb, top), sep(tb, size, era, 24),
-            z3.Implies(rb != 0, z3.And(_rd.domain(year, zx(r['month']), zx(r['dow']), sx(r['dom'])), _rd.no_year_spill(zx(r['month']), sx(r['dom'])),
-                                       z3.ULE(rb, top), sep(tb, size, rb, 9)))]
+    mb = c.ex.ptr_to_bv(m)
+    return [era != 0, z3.ULE(era, top), z3.ULE(tb, top), z3.ULE(mb, top), sep(tb, size, era, 24), sep(mb, 24, era, 24), sep(tb, size, mb, 24),
+            z3.Implies(rb != 0, z3.And(ADMITTED(year, zx(r['month']), zx(r['dow']), sx(r['dom'])), z3.ULE(rb, top), sep(tb, size, rb, 9)))]
 
 
 def _is_gtt_result(c, tt, yt, rb):
@@ -362,9 +374,7 @@ def _ctfy_post(c):
             ('rule-gives-time-and-dst-shift', z3.Implies(rb != 0, z3.And(_is_gtt_result(c, tt, yt, rb),
                                                                           sx(g('deltaMinutes')) == _enc.dec_ext_delta_minutes(zx(rf('deltaCode')))))),
             ('without-a-rule-the-transition-time-is-the-match-start', z3.Implies(rb == 0, z3.And(*[a == b for a, b in zip(tt, ms)]))),
-            # NOT stated: without a rule, deltaMinutes == the era's fixed DST shift.  The obligation reads the era through a pointer loaded
-            # from the match after five stores through `t`; every back end returned unknown (120 s), so the clause is left to the
-            # bounded run of C01 rather than kept as an undecided obligation.
+            ('without-a-rule-the-dst-shift-of-the-era', z3.Implies(rb == 0, sx(g('deltaMinutes')) == _enc.dec_ext_delta_minutes(zx(ef('deltaCode'))))),
             ('single-character-letter-copied', z3.Implies(z3.And(rb != 0, letter >= 32, letter != ord('-')), z3.And(lb(0) == letter, lb(1) == 0))),
             ('no-letter-otherwise', z3.Implies(z3.Or(rb == 0, letter < 32, letter == ord('-')), lb(0) == 0))]
 
@@ -381,3 +391,6 @@ contract(CTFY, props=['C01'],
          lang_requires=lambda c: [valid_ptr(c.ex, c.args[0], 64), valid_ptr(c.ex, c.args[3], 24),
                                   z3.Or(z3.UGE(c.ex.ptr_to_bv(c.args[0]), c.ex.ptr_to_bv(c.args[3]) + 24), z3.UGE(c.ex.ptr_to_bv(c.args[3]), c.ex.ptr_to_bv(c.args[0]) + 64))],
          requires=_ctfy_pre, ensures=_ctfy_post, assigns=_ctfy_assigns)
+REG_CTFY = None
+from .reg import REG as _REG
+_REG[CTFY].separated = lambda c: [(c.ex.ptr_to_bv(c.args[0]), 64), (c.ex.ptr_to_bv(c.args[3]), 24), (c.old.field(c.args[3], MATCH, 'era'), 24)]
